@@ -201,7 +201,8 @@ impl<'a> Parser<'a> {
                         match t {
                             Token::CharData(data) => {
                                 // TODO an origin was specified, should this be legal? definitely confusing...
-                                cx.origin = Some(Name::parse(&data, None)?);
+                                // a relative name is completed with the current origin (RFC 1035 section 5.1)
+                                cx.origin = Some(Name::parse(&data, cx.origin.as_ref())?);
                                 State::StartLine
                             }
                             _ => return Err(ParseError::UnexpectedToken(t)),
